@@ -100,7 +100,8 @@ def run(ctx):
                 'constant / NaN / empty / non-numeric, Query, Sample, GetInstance) up to the tier bound for every class '
                 'binding and constructor option set; each is executed on real objects (constructor, get_instance by class '
                 'and by name); a case is one (binding, construction form, behaviour); non-trivial = contains a Fit; '
-                'distinct by content; plus the lifecycle clauses (LifeTrace) on every public call the repository\'s own end-to-end tests make (out-of-tree recorder)')
+                'distinct by content; plus behaviours of spec/Coexist.tla over two live objects of different classes (bivariate families, marginals incl. wrappers sharing '
+                'candidate instances, Gaussian copulas sharing a prototype and vines), every answer compared with the same model alone in a fresh process; plus the lifecycle clauses (LifeTrace) on every public call the repository\'s own end-to-end tests make (out-of-tree recorder)')
     ctx.assumptions = ['observable behaviour = class, to_dict, pdf/cdf/ppf (or density/likelihood) on a fixed probe set '
                        'and the sample of a re-seeded deep copy, compared with rtol 1e-9',
                        'vine fits are preceded by an allocator poison whose value cycles, so dependence on '
@@ -130,6 +131,10 @@ def run(ctx):
         SJ.run_session_jobs(ctx, 'C19', want, 'harness.props.C19', ('Fit',))
         # code -> spec on executions this framework did not design: the lifecycle clauses on every public call of the repository's end-to-end tests
         finish_recorded_tests(ctx, recproc, rectrace)
+        # the same sentence for a process that holds models of DIFFERENT classes (spec/Coexist.tla): every answer of a fitted model equals
+        # the answer of the same model alone in a fresh process, whatever another live object was fitted to, asked or sampled in between
+        from .. import coexist
+        coexist.run_coexistence(ctx, 'C19')
     finally:
         import shutil
         if recproc.poll() is None:
